@@ -15,6 +15,9 @@ r = sh('git -C /repo apply %s' % os.path.join(d, 'patch.diff'))
 if r.returncode != 0:
     print('patch does not apply:', r.stdout); sys.exit(2)
 res = {}
+import shutil, tempfile
+bak = tempfile.mkdtemp(prefix='vx_ev_', dir=os.path.join(V, 'work'))
+shutil.copytree(os.path.join(V, 'evidence'), os.path.join(bak, 'evidence'))
 try:
     for pid in pids:
         tier = os.environ.get('TIER', 'quick')
@@ -26,6 +29,10 @@ try:
         print('\n'.join(lines[:12]))
 finally:
     sh('git -C /repo checkout -- .')
+    # the evidence directory must describe runs on the unchanged tree only
+    shutil.rmtree(os.path.join(V, 'evidence'))
+    shutil.copytree(os.path.join(bak, 'evidence'), os.path.join(V, 'evidence'))
+    shutil.rmtree(bak, ignore_errors=True)
 notes = os.path.join(d, 'notes.txt')
 if os.path.exists(notes) and 'needs' not in meta:
     meta['notes'] = open(notes).read()[:1500]
